@@ -31,6 +31,8 @@ Is(e) == l <= Len(T) /\ Ev.e = e /\ l' = l + 1
 Has(f, id) == id \in DOMAIN f
 Without(f, id) == [i \in DOMAIN f \ {id} |-> f[i]]
 ViewOf(s) == IF s = 0 THEN cur ELSE snaps[s]
+\* the older values of each key at the moment snapshot s was taken (stored next to the view under id + 1000)
+OldsOf(s) == IF s = 0 THEN olds ELSE snaps[s + 1000]
 
 \* ---- writes: an acknowledged write (rc = 0) takes effect, a failed one must not ----
 TPut == /\ Is("put") /\ Ev.rc = 0
@@ -45,16 +47,17 @@ TGet == /\ Is("get") /\ (Ev.snap = 0 \/ Has(snaps, Ev.snap))
         /\ \/ Ev.r = ViewOf(Ev.snap)[Ev.k]
            \* named deviation (known finding D1): after a repair a point lookup may return an OLDER value of the key
            \* (never one that was not written); iterators are still exact
-           \/ AllowD1 /\ repaired /\ Ev.snap = 0 /\ Ev.r \in olds[Ev.k] /\ PrintT(<<"pr", "d1", l>>)
+           \* (a snapshot taken after the repair sees the same stale value: only values that were already older when it was taken)
+           \/ AllowD1 /\ repaired /\ Ev.r \in OldsOf(Ev.snap)[Ev.k] /\ PrintT(<<"pr", "d1", l>>)
         /\ UNCHANGED <<cur, snaps, iters, olds, repaired>>
 THas == /\ Is("has") /\ (Ev.snap = 0 \/ Has(snaps, Ev.snap))
         /\ Ev.r = (IF ViewOf(Ev.snap)[Ev.k] = Absent THEN 0 ELSE 1)
         /\ UNCHANGED <<cur, snaps, iters, olds, repaired>>
 
 TSnap == /\ Is("snap") /\ ~Has(snaps, Ev.id)
-         /\ snaps' = snaps @@ (Ev.id :> cur) /\ UNCHANGED <<cur, iters, olds, repaired>>
+         /\ snaps' = snaps @@ (Ev.id :> cur) @@ ((Ev.id + 1000) :> olds) /\ UNCHANGED <<cur, iters, olds, repaired>>
 TRel == /\ Is("rel") /\ Has(snaps, Ev.id)
-        /\ snaps' = Without(snaps, Ev.id) /\ UNCHANGED <<cur, iters, olds, repaired>>
+        /\ snaps' = Without(Without(snaps, Ev.id), Ev.id + 1000) /\ UNCHANGED <<cur, iters, olds, repaired>>
 
 \* ---- iterators: C07 ----
 TIterNew == /\ Is("iter_new") /\ ~Has(iters, Ev.id) /\ (Ev.snap = 0 \/ Has(snaps, Ev.snap))
